@@ -25,7 +25,8 @@ class Capture:
                 continue
             vs = list(polyhedron.A.variables)
             x = [int(v.bounds.lower) + (j % (int(v.bounds.upper) - int(v.bounds.lower) + 1)) for j, v in enumerate(vs)]
-            out.append((numpy.array(x), int(numpy.dot(o, x)), 6))
+            # every documented status code comes with a vector: what the solver returned is what is reported
+            out.append((numpy.array(x), int(numpy.dot(o, x)), [6, 5, 1, 2, 3, 4][(k + len(vs)) % 6]))
         self.calls[-1]["answers"] = out
         return out
 
